@@ -312,6 +312,53 @@ theorem favor_branch_never_panics (input : List Nat) (t n j : Nat) (ht : 0 < t) 
       (by show 1 ≤ 8; decide) input t n j ht hj hn hn64
   · exact shared_no_panic_h9 h9std_key_lt input t n j ht hj hn
 
+/-- `job_dictionary_indexing_never_panics`: the same for the index a job builds ITSELF in
+`set_custom_dictionary…` (`StoreLookaheadThenStore` over the kept part of its prefix) — every kind
+of quality 2..9, every prefix length `size ≤ input.len()`, truncated to the window or not: the
+result is `some` table(s).  With `favor_branch_never_panics`: whichever index the job's encoder ends
+up holding (`jobIndex`: its own, or the handed one), building it did not panic. -/
+theorem job_dictionary_indexing_never_panics (input : List Nat) (size lgwin quality : Nat)
+    (hsz : size ≤ input.length) (h64 : size ≤ 2 ^ 64) :
+    (∃ st, selfbuilt (basicModel H2 65545) input size lgwin quality 7 = some st) ∧
+    (∃ st, selfbuilt (basicModel H3 65546) input size lgwin quality 7 = some st) ∧
+    (∃ st, selfbuilt (basicModel H4 131080) input size lgwin quality 7 = some st) ∧
+    (∃ st, selfbuilt (basicModel H54 1048588) input size lgwin quality 7 = some st) ∧
+    (∀ bucketBits blockBits, bucketBits + blockBits ≤ 32 →
+      ∃ st, selfbuilt (advModel (adv32P bucketBits blockBits)) input size lgwin quality 3 = some st) ∧
+    (∀ bucketBits blockBits hashLen, bucketBits + blockBits ≤ 32 →
+      ∃ st, selfbuilt (advModel (adv64P bucketBits blockBits hashLen)) input size lgwin quality 7 = some st) ∧
+    (∃ st, selfbuilt (h9Model H9std) input size lgwin quality 3 = some st) := by
+  have hb : ∀ (hl bb sweep len : Nat), bb ≤ 64 → 2 ^ bb + sweep ≤ len →
+      ∀ w, (basicP bb sweep hl).hash w % U32 + (basicP bb sweep hl).sweep ≤ len := by
+    intro hl bb sweep len h1 h2 w
+    have := basicHash_lt hl bb h1 w
+    have hm : basicHash hl bb w % U32 ≤ basicHash hl bb w := Nat.mod_le _ _
+    simp only [basicP]
+    omega
+  have basic : ∀ (P : BasicP) (hP : P.Ok) (hs : P.sweep ≠ 0) (len : Nat)
+      (hfit : ∀ w, P.hash w % U32 + P.sweep ≤ len),
+      ∃ st, selfbuilt (basicModel P len) input size lgwin quality 7 = some st := by
+    intro P hP hs len hfit
+    exact selfbuilt_isSome (basicModel P len) ⟨_, rfl⟩ 7
+      (fun d m hm _ => by
+        obtain ⟨b, h, _⟩ := basic_bulk0_isSome hP hs len hfit d m hm
+        exact ⟨b, h⟩) input size lgwin quality hsz h64
+  refine ⟨?_, ?_, ?_, ?_, ?_, ?_, ?_⟩
+  · exact basic H2 H2_ok (by decide) 65545 (hb 5 16 1 65545 (by decide) (by decide))
+  · exact basic H3 H3_ok (by decide) 65546 (hb 5 16 2 65546 (by decide) (by decide))
+  · exact basic H4 H4_ok (by decide) 131080 (hb 5 17 4 131080 (by decide) (by decide))
+  · exact basic H54 H54_ok (by decide) 1048588 (hb 7 20 4 1048588 (by decide) (by decide))
+  · intro bb kb h
+    exact selfbuilt_isSome (advModel (adv32P bb kb)) ⟨_, rfl⟩ 3
+      (fun d m hm hm64 => adv_bulk0_isSome (adv32P_ok bb kb h) (adv32_key_lt bb kb (by omega)) (mask_lt kb)
+        (by show 1 ≤ 4; decide) d m hm hm64) input size lgwin quality hsz h64
+  · intro bb kb hlen h
+    exact selfbuilt_isSome (advModel (adv64P bb kb hlen)) ⟨_, rfl⟩ 7
+      (fun d m hm hm64 => adv_bulk0_isSome (adv64P_ok bb kb hlen h) (adv64_key_lt bb kb hlen (by omega)) (mask_lt kb)
+        (by show 1 ≤ 8; decide) d m hm hm64) input size lgwin quality hsz h64
+  · exact selfbuilt_isSome (h9Model H9std) ⟨_, rfl⟩ 3
+      (fun d m hm _ => h9_bulk0_isSome h9std_key_lt d m hm) input size lgwin quality hsz h64
+
 /-- the bound on the input is needed: with fewer bytes than `get_range` was told the look-ahead
 window of the last stored position leaves the slice and `BulkStoreRange` panics (toy kind; the real
 code passes `input.len()` itself, so `n = input.length`) -/
